@@ -17,7 +17,8 @@
 From Coq Require Import List Bool Arith.
 Import ListNotations.
 
-Inductive hk := HRes | HEmpty.          (* resident column / placeholder for "this partition has no such column" *)
+(* resident column / placeholder for "this partition has no such column" / evicted (handle kept, column dropped) *)
+Inductive hk := HRes | HEmpty | HEvicted.
 
 Record pobj := mkP { p_id : nat; p_eph : bool; p_h : list (nat * hk) }.
 
@@ -37,7 +38,9 @@ Inductive cqpc :=
 
 Inductive cact :=
 | CBatch | CClone | CPersist | CSkip | CBuild (i : nat) | CSwap | CPrepare
-| CSnapshot (col : nat) | CGetCols.
+| CSnapshot (col : nat) | CGetCols
+| CEvict.                                (* evict_cache / the memory-limit thread: every resident column of every
+                                            partition reachable through the table map is dropped *)
 
 Record cstate := mkC {
   objs : list pobj; tparts : list nat; cat : list (nat * list nat); cnext : nat;
@@ -69,6 +72,13 @@ Definition get_cols (os : list pobj) (ct : list (nat * list nat)) (p col : nat) 
   | None => GCstuck                                   (* impossible: the caller holds an Arc *)
   | Some o =>
       match assoc col (p_h o) with
+      | Some HEvicted =>
+          (* get_or_load of a non-resident handle: Storage::load_column -> MetaStore::subpartition_key indexes the
+             catalogue, for ephemeral partitions too *)
+          match assoc p ct with
+          | None => GCpanic
+          | Some stored => GCok (add_handle p col (if memn col stored then HRes else HEmpty) os)
+          end
       | Some _ => GCok os                             (* handle present (resident or placeholder) *)
       | None =>
           if p_eph o then GCok (add_handle p col HEmpty os)           (* self.ephemeral || .. => ColumnHandle::empty *)
@@ -89,7 +99,13 @@ Fixpoint get_cols_all (os : list pobj) (ct : list (nat * list nat)) (work : list
       end
   end.
 
-Definition all_res (o : pobj) : bool := forallb (fun h => match snd h with HRes => true | HEmpty => false end) (p_h o).
+Definition all_res (o : pobj) : bool := forallb (fun h => match snd h with HRes => true | _ => false end) (p_h o).
+
+(* Partition::evict for every column of every partition in the table map *)
+Definition evict_all (tp : list nat) (os : list pobj) : list pobj :=
+  map (fun o => if memn (p_id o) tp
+                then mkP (p_id o) (p_eph o) (map (fun ch => (fst ch, match snd ch with HRes => HEvicted | x => x end)) (p_h o))
+                else o) os.
 
 Fixpoint updq (n : nat) (x : cqpc) (l : list cqpc) : list cqpc :=
   match l, n with
@@ -162,7 +178,10 @@ Section WithColumns.
 
   (* thread None = the flush thread, Some n = querier n *)
   Definition cstep (t : option nat) (a : cact) (st : cstate) : option cstate :=
-    match t with None => fstep a st | Some n => qstep n a st end.
+    match a with
+    | CEvict => Some (mkC (evict_all (tparts st) (objs st)) (tparts st) (cat st) (cnext st) (cfl st) (cqs st))
+    | _ => match t with None => fstep a st | Some n => qstep n a st end
+    end.
 
   Fixpoint crun (sched : list (option nat * cact)) (st : cstate) : option cstate :=
     match sched with
@@ -181,6 +200,12 @@ Section WithColumns.
     | [] => []
     | (_, CSnapshot c) :: r => c :: sched_cols r
     | _ :: r => sched_cols r
+    end.
+  Fixpoint sched_evicts (sched : list (option nat * cact)) : bool :=
+    match sched with
+    | [] => false
+    | (_, CEvict) :: _ => true
+    | _ :: r => sched_evicts r
     end.
 End WithColumns.
 
